@@ -36,6 +36,7 @@ def random_node(
     decider: SynthesisDecider,
 ):
     assert isinstance(decider, SynthesisDecider)
+    decider.begin_tree()
     return create_node(
         GlobalSynthesisContext(
             random=random,
